@@ -50,6 +50,54 @@ def run_case(sc):
     return {"tid": sc["tid"], "cls": sc.get("cls", "enum"), "rows": sc["rows"], "a": sc["a"], "b": sc["b"], "res": res}
 
 
+def _proj(o):
+    from tola.assembly.gap import Gap
+    res = {"kind": "none", "start": 0, "end": 0, "rows": [], "exc": ""}
+    if o is not None:
+        res["kind"] = "ok"
+        res["start"], res["end"] = int(o.start), int(o.end)
+        for r in o.rows:
+            res["rows"].append({"k": "G", "len": r.length, "idx": 0} if isinstance(r, Gap) else {"k": "F", "len": r.length, "idx": int(r.name[1:])})
+    return res
+
+
+def run_history(grp):
+    """Histories: every ordered pair of queries on ONE IndexedAssembly object (state carried from one lookup to the next).  A second-call result
+    equal to the result of the same query on a fresh object (already judged) is not recorded again; any other result is recorded and judged."""
+    from tola.assembly.fragment import Fragment
+    from tola.assembly.gap import Gap
+    from tola.assembly.indexed_assembly import IndexedAssembly
+    from tola.assembly.scaffold import Scaffold
+    rows = [Fragment(f"f{i}", 1, r["len"], 1) if r["k"] == "F" else Gap(r["len"], "scaffold") for i, r in enumerate(grp["rows"], 1)]
+    qs = grp["queries"]
+    fresh = grp["fresh"]
+    out = []
+
+    def go(_):
+        n = 0
+        for q1 in qs:
+            for q2 in qs:
+                ia = IndexedAssembly("in", scaffolds=[Scaffold("s", rows)])
+                try:
+                    ia.find_overlaps(Fragment("s", q1[0], q1[1], 1))
+                except Exception:  # noqa: BLE001
+                    pass
+                try:
+                    res = _proj(ia.find_overlaps(Fragment("s", q2[0], q2[1], 1)))
+                except Exception as e:  # noqa: BLE001
+                    res = {"kind": "exc", "start": 0, "end": 0, "rows": [], "exc": type(e).__name__}
+                n += 1
+                if res != fresh[f"{q2[0]},{q2[1]}"] and len(out) < 50:
+                    out.append({"tid": 0, "cls": f"second-lookup-after-{q1[0]}-{q1[1]}", "rows": grp["rows"], "a": q2[0], "b": q2[1], "res": res})
+        return n
+    r = C.guarded(go, None, 120.0)
+    n = r[1] if r[0] == "ok" else 0
+    if r[0] != "ok":
+        out.append({"tid": 0, "cls": "second-lookup", "rows": grp["rows"], "a": qs[0][0], "b": qs[0][1],
+                    "res": {"kind": "hang" if r[0] == "hang" else "exc", "start": 0, "end": 0, "rows": [], "exc": r[1] if r[0] == "exc" else ""}})
+    return {"pairs": n, "traces": out}
+
+
 def random_scen(rng, n):
     out = []
     for _ in range(n):
@@ -90,6 +138,19 @@ def main(tier, replay=None):
         s["tid"] = i
     # 3. execute against the real code
     traces = C.pmap("harness.c12", "run_case", scen, chunk=2000)
+    # 3b. histories: all ordered pairs of queries on one shared IndexedAssembly (scaffolds of <= 3 rows in the quick tier, <= 4 thorough)
+    groups = {}
+    for t in traces:
+        if t["cls"] == "enum" and len(t["rows"]) <= (3 if tier == "quick" else 4):
+            g = groups.setdefault(json.dumps(t["rows"]), {"rows": t["rows"], "queries": [], "fresh": {}})
+            g["queries"].append([t["a"], t["b"]])
+            g["fresh"][f"{t['a']},{t['b']}"] = t["res"]
+    hist = C.pmap("harness.c12", "run_history", list(groups.values()), chunk=20)
+    pair_lookups = sum(h["pairs"] for h in hist)
+    extra = [x for h in hist for x in h["traces"]]
+    for i, x in enumerate(extra, len(traces) + 1):
+        x["tid"] = i
+    traces += extra
     # 4. TLC judges the recorded results
     jr = C.judge("LookupTrace", traces, run.dir, consts=cfg["scen"], shard=6000, spec="TraceSpec")
     by = {t["tid"]: t for t in traces}
@@ -105,8 +166,10 @@ def main(tier, replay=None):
         "exhaustive": True,
         "evaluations": len(traces), "distinct_nontrivial": distinct,
         "rule": "every scaffold of the bounded model (rows F/G, lengths in Lens, <= MaxRows rows) x every query 1<=a<=b<=len+2, "
-                "exported by TLC from Lookup!Scaffolds/Queries, plus seeded random scaffolds of <= 12 rows; non-trivial = more than one row",
-        "model_constants": cfg["mc"], "result_kinds": kinds,
+                "exported by TLC from Lookup!Scaffolds/Queries, plus seeded random scaffolds of <= 12 rows; histories: every ordered pair of queries on one shared object for the small scaffolds "
+                "(a second result differing from the fresh-object result is judged); non-trivial = more than one row",
+        "model_constants": cfg["mc"], "result_kinds": kinds, "second_lookups_on_a_shared_object": pair_lookups,
+        "second_lookups_differing_from_fresh_result": len(extra),
         "model_drift": len(jr["M"]), "model_conformant": len(jr["M"]) == 0,
         "trace_judge_states": jr["distinct"],
         "action_coverage": C.coverage_counts(mc["out"]),
